@@ -59,6 +59,8 @@ def cases(draw):
         # everything after the first top-level object is added through a SECOND handle on the same store,
         # while gc runs through the first, long-lived one (its per-handle bookkeeping must not matter)
         "two_handles": draw(st.booleans()),
+        # `used` is typed Iterable[HashInfo]: callers pass lists, sets and one-shot generators
+        "used_form": draw(st.sampled_from(["list", "set", "generator", "chain"])),
         # name carried by the foreign-algorithm used ids
         "foreign": draw(st.sampled_from(["sha256", "md5-family", "md5-family"])),
     }
@@ -170,7 +172,18 @@ def run_case(case, ctx):
         raised = None
         ret = None
         try:
-            ret = gc(target, used, cache_odb=cache, shallow=case["shallow"], dry=case["dry"])
+            form = case.get("used_form", "list")
+            if form == "set":
+                used_arg = set(used)
+            elif form == "generator":
+                used_arg = (h for h in used)
+            elif form == "chain":
+                import itertools
+
+                used_arg = itertools.chain(used[::2], used[1::2])
+            else:
+                used_arg = used
+            ret = gc(target, used_arg, cache_odb=cache, shallow=case["shallow"], dry=case["dry"])
         except ObjectDBPermissionError as exc:
             raised = exc
         _, after = ref.audit_local_store(store, algo)
@@ -209,6 +222,7 @@ def run_case(case, ctx):
         )
         if "foreign-algo" in labels and foreign != "sha256":
             labels.add("foreign-algo-is-other-md5-flavour")
+        labels.add(f"used-as-{case.get('used_form', 'list')}")
         classes = sorted(labels) + [
             f"algo={algo}",
             f"kind={case['kind']}",
